@@ -112,6 +112,11 @@ def consumes(stmt, f, u):
     if k in LOOPS or k in ('SwitchStmt', 'CXXTryStmt', 'LambdaExpr'):
         if k == 'CXXTryStmt':
             return consumes(kids(stmt)[0], f, u)
+        if k == 'DoStmt':
+            # the body of a do-while runs at least once before its condition is looked at
+            body_ = next((c for c in kids(stmt) if c.get('kind')), None)
+            # (a `break` / `goto` inside leaves only the inner loop: keep the conservative answer then)
+            return body_ is not None and not any(x.get('kind') in ('BreakStmt', 'GotoStmt') for x in walk(body_)) and consumes(body_, f, u)
         return False
     return any(is_consuming_call(c, f, u) for c in _uncond(stmt))
 
